@@ -402,7 +402,10 @@ func checkMslLayoutBatch(c *core.Ctx, cs []layoutCase, m *ir.Module, src string,
 			seen[t.Name] = true
 			sl, ok := structs[pfx+t.Name]
 			if !ok {
-				// naga may rename (trailing underscore etc.); skip silently rather than guess
+				sl, ok = structs[pfx+t.Name+"_"] // naga appends "_" to names that end in a digit
+			}
+			if !ok {
+				c.Skip("MSL static layout: emitted struct for a WGSL struct not found by name")
 				return
 			}
 			byName := map[string]mslx.MemberLayout{}
@@ -412,6 +415,9 @@ func checkMslLayoutBatch(c *core.Ctx, cs []layoutCase, m *ir.Module, src string,
 			for _, wm := range t.Ms {
 				walk(wm.Ty)
 				ml, ok := byName[wm.Name]
+				if !ok {
+					ml, ok = byName[wm.Name+"_"]
+				}
 				if !ok {
 					probs = append(probs, fmt.Sprintf("%s.%s: member not found in the MSL struct", t.Name, wm.Name))
 					continue
